@@ -10,7 +10,7 @@ claim("C01",
       "float32 NaN payload bits (excluded by assumption), numeric-string arguments (C16), tree shapes beyond the stated bounds.")
 
 claim("C02",
-      "Bounded symbolic model check of the real Decode/DecodeOwned on ALL byte strings of length <=5 (thorough <=7) plus length-field templates, against an independent E5 recogniser, "
+      "Bounded symbolic model check of the real Decode/DecodeOwned on ALL byte strings of length <=5 (thorough <=6) plus length-field templates, against an independent E5 recogniser, "
       "a lock-step value checker and an allocation guard (bytes requested <= 512*len+8192, symbolic sizes checked before concretisation): acceptance set equals the grammar, "
       "values are the grammar's, re-encoding equals the consumed prefix, no panic, Decode and DecodeOwned agree.",
       "Trusted: executor + models, z3, the recogniser in harness/secs2/c02.go. Outside: inputs longer than the bound other than the templates; GC/RSS (the guard counts requested bytes).")
